@@ -122,7 +122,7 @@ def _parse(s):
         return Ty("fnconst", name=s[8:])
     if s.startswith("gen:"):
         return Ty("gen", name=s[4:])
-    if s in ("int", "bool", "str", "val", "date", "num", "intinf", "fn", "none", "seq", "real", "rec", "nat", "fnum"):
+    if s in ("int", "bool", "str", "val", "date", "num", "intinf", "fn", "none", "seq", "real", "rec", "nat", "fnum", "time"):
         return Ty(s)
     raise ValueError("bad type string: " + s)
 
